@@ -17,28 +17,58 @@ pub struct Loaded {
     pub model: AutosarModel,
     pub file: ArxmlFile,
     pub warnings: Vec<String>,
+    pub warning_classes: Vec<String>,
 }
 
-pub fn load(text: &[u8], strict: bool) -> Result<Result<Loaded, String>, String> {
+/// variant name of an error, e.g. "ParserError::ElementVersionError"
+pub fn err_class(e: &AutosarDataError) -> String {
+    let first_ident = |s: String| s.split(|c: char| !c.is_alphanumeric()).next().unwrap_or("").to_string();
+    match e {
+        AutosarDataError::LexerError { source, .. } => format!("LexerError::{}", first_ident(format!("{source:?}"))),
+        AutosarDataError::ParserError { source, .. } => format!("ParserError::{}", first_ident(format!("{source:?}"))),
+        other => first_ident(format!("{other:?}")),
+    }
+}
+
+pub struct LoadErr {
+    pub text: String,
+    pub class: String,
+}
+impl std::fmt::Debug for LoadErr {
+    fn fmt(&self, f: &mut std::fmt::Formatter<'_>) -> std::fmt::Result {
+        f.write_str(&self.text)
+    }
+}
+
+pub fn load_classified(text: &[u8], strict: bool) -> Result<Result<Loaded, LoadErr>, String> {
     guarded(|| {
         let model = AutosarModel::new();
         match model.load_buffer(text, "x.arxml", strict) {
-            Ok((file, w)) => Ok(Loaded { model: model.clone(), file, warnings: w.iter().map(|e| e.to_string()).collect() }),
-            Err(e) => Err(e.to_string()),
+            Ok((file, w)) => Ok(Loaded {
+                model: model.clone(),
+                file,
+                warnings: w.iter().map(|e| e.to_string()).collect(),
+                warning_classes: w.iter().map(err_class).collect(),
+            }),
+            Err(e) => Err(LoadErr { text: e.to_string(), class: err_class(&e) }),
         }
     })
 }
 
-fn diff_class(d: &str) -> String {
-    // "<path>: text ..." -> "text"
-    d.split(": ").nth(1).and_then(|r| r.split(' ').next()).unwrap_or("?").to_string()
+pub fn load(text: &[u8], strict: bool) -> Result<Result<Loaded, String>, String> {
+    load_classified(text, strict).map(|r| r.map_err(|e| e.text))
 }
 
-fn index_of(m: &AutosarModel) -> (BTreeSet<String>, Vec<(String, usize)>) {
+pub fn index_of(m: &AutosarModel) -> (BTreeSet<String>, Vec<(String, usize)>) {
     let paths: BTreeSet<String> = m.identifiable_elements().map(|(p, _)| p).collect();
     let mut refs: Vec<(String, usize)> = m.verif_reference_origin_keys().into_iter().map(|k| (k.clone(), m.get_references_to(&k).len())).collect();
     refs.sort();
     (paths, refs)
+}
+
+pub fn diff_class(d: &str) -> String {
+    // "<path>: text ..." -> "text"
+    d.split(": ").nth(1).and_then(|r| r.split(' ').next()).unwrap_or("?").to_string()
 }
 
 /// the C01 oracle for one document whose expected model is `expected` (root attrs ignored)
